@@ -236,6 +236,47 @@ def collision_project(idx):
     return [("lib.rs", "".join(src))]
 
 
+SIZE_LENGTHS = [1, 2, 31, 32, 33, 39, 40, 41, 63, 64, 65, 76, 77, 78, 79, 80, 81, 99, 100, 101, 127, 128, 129, 255, 256, 257, 1000, 5000]
+SIZE_PLACES = ["struct-name", "field-name", "field-rename", "enum-name", "variant-name", "variant-rename", "command-name", "parameter-name", "event-name",
+               "validator-message", "all-variants", "many-fields", "many-variants", "many-parameters", "many-commands"]
+SIZE_ALPHABETS = ["a", "Я", "語", "😀"]          # 1, 2, 3 and 4 bytes per character (the last two only where a string is allowed)
+
+
+def size_project(idx):
+    """one name or string of a boundary length (in characters; 1 to 4 bytes each) at one named position of an otherwise ordinary project,
+    or an item with very many members: nothing in a generator may depend on how long or how many (column budgets, chunking, buffers)"""
+    place = SIZE_PLACES[idx % len(SIZE_PLACES)]
+    n = SIZE_LENGTHS[(idx // len(SIZE_PLACES)) % len(SIZE_LENGTHS)]
+    ab = SIZE_ALPHABETS[(idx // (len(SIZE_PLACES) * len(SIZE_LENGTHS))) % len(SIZE_ALPHABETS)]
+    is_string = place in ("field-rename", "variant-rename", "event-name", "validator-message")
+    if not is_string and ab in ("語", "😀"):
+        ab = "ü" if ab == "😀" else "語"                 # identifiers: XID characters only
+    upper = place in ("struct-name", "enum-name", "variant-name", "all-variants")
+    word = (("A" if upper else "a") + ab * n)[: max(n, 1)] if not is_string else ab * n
+    nm = lambda pl, dflt: word if place == pl else dflt
+    many = min(n, 300)
+    fields = ["    pub %s: i32," % nm("field-name", "plain"), "    #[serde(rename = \"%s\")]\n    pub renamed: String," % nm("field-rename", "wire"),
+              "    #[validate(length(min = 1, message = \"%s\"))]\n    pub checked: String," % nm("validator-message", "too short")]
+    if place == "many-fields":
+        fields += ["    pub f%d: Option<u8>," % k for k in range(many)]
+    variants = [nm("variant-name", "First"), "#[serde(rename = \"%s\")]\n    Second" % nm("variant-rename", "second")]
+    if place == "all-variants":
+        variants = ["%s%d" % (word, k) for k in range(4)]
+    if place == "many-variants":
+        variants += ["V%d" % k for k in range(many)]
+    sname, ename = nm("struct-name", "Rec%d" % idx), nm("enum-name", "Kind%d" % idx)
+    params = ["%s: %s" % (nm("parameter-name", "rec"), sname), "kind: Option<%s>" % ename]
+    if place == "many-parameters":
+        params += ["p%d: u8" % k for k in range(min(many, 100))]
+    src = [HDR, "#[derive(Serialize, Deserialize, Validate)]\npub struct %s {\n%s\n}\n\n" % (sname, "\n".join(fields)),
+           "#[derive(Serialize, Deserialize)]\npub enum %s {\n    %s,\n}\n\n" % (ename, ",\n    ".join(variants)),
+           "#[tauri::command]\npub fn %s(%s) -> Vec<%s> {\n    todo!()\n}\n\n" % (nm("command-name", "cmd_%d" % idx), ", ".join(params), ename),
+           "pub fn ev_%d(app: AppHandle, p: %s) {\n    app.emit(\"%s\", p).unwrap();\n}\n" % (idx, sname, nm("event-name", "size-ev"))]
+    if place == "many-commands":
+        src += ["#[tauri::command]\npub fn extra_cmd_%d(a: %s) -> %s {\n    todo!()\n}\n\n" % (k, sname, ename) for k in range(many)]
+    return [("lib.rs", "".join(src))]
+
+
 NON_RUST = ["", "\n\n\n", "{", "}}}}", "fn", "#[tauri::command]", "#[tauri::command]\npub fn", "\"unterminated", "/* never closed", "'", "r#\"raw never closed",
             "<html><body>not rust</body></html>", "{\"json\": true}", "0x", "#!/bin/sh\necho hi\n", "\ufeff// BOM\nfn ok() {}", "fn a() { b( }", "struct S { a: }", "日本語のテキスト",
             "#[derive(Serialize)] struct", "pub fn f() -> { }", "impl", "fn f(a: i32, ) -> ) {}", "\\", "\x00\x01\x02", "fn main() { let s = \"\\u{110000}\"; }", "#[serde(rename = )] struct S;",
@@ -475,6 +516,16 @@ def run(tier):
     coll = [("name-collisions-%d" % i, collision_project(i)) for i in range(24 if tier == "quick" else 240)]
     for k, (mode, via) in enumerate([("none", "cli"), ("zod", "cli"), ("zod", "driver")]):
         add("name-collisions", coll[k::3] if tier == "quick" else coll, mode, via=via, bsize=1)
+    nsize = len(SIZE_PLACES) * len(SIZE_LENGTHS) * len(SIZE_ALPHABETS)
+    size_items = [("size-%d" % i, size_project(i)) for i in range(nsize)]
+    if tier == "quick":
+        off = common.seed() % 2
+        add("sizes", size_items[off::2], "zod", bsize=12)
+        add("sizes", size_items[1 - off::2], "none", bsize=12)
+        add("sizes", size_items[off::14], "zod", via="driver", bsize=12)
+    else:
+        for (mode, via) in [("none", "cli"), ("zod", "cli"), ("zod", "driver"), ("none", "cli+viz+verbose")]:
+            add("sizes", size_items, mode, via=via, bsize=12)
     nonrust = [("non-rust-%d" % i, [("f.rs", t), ("ok.rs", "#[tauri::command]\npub fn ok_cmd() {}\n")]) for i, t in enumerate(NON_RUST)]
     add("non-rust", nonrust, "none", bsize=4)
     add("non-rust", nonrust, "zod", via="driver", bsize=4)
